@@ -26,16 +26,21 @@ MAPORDER_PKGS="./pkg/engine ./pkg/action ./pkg/release/util ./pkg/chart/v2/util 
 tier=quick
 for a in "$@"; do case "$a" in thorough) tier=thorough;; esac; done
 racepass() {
-  # separate free-running pass under Go's race detector (supporting evidence, see DESIGN.md §4)
+  # separate free-running pass under Go's race detector (see DESIGN.md §8.4): $1 = mode, $2 = iterations
   ( cd harness && go build -race -o ../bin/racepass ./cmd/racepass ) >bin/race-build.log 2>&1 || { echo '{"built":false}' >bin/racepass.json; return; }
-  GORACE="exitcode=66 halt_on_error=0" ./bin/racepass 60 >bin/racepass.out 2>&1
+  GORACE="exitcode=66 halt_on_error=0" ./bin/racepass "$1" "$2" >bin/racepass.out 2>&1
   rc=$?
   n=$(grep -c "WARNING: DATA RACE" bin/racepass.out)
-  printf '{"built":true,"iterations":60,"exit_code":%d,"race_reports":%d}\n' "$rc" "$n" >bin/racepass.json
+  printf '{"built":true,"mode":"%s","iterations":%d,"exit_code":%d,"race_reports":%d,"output":"%s"}\n' "$1" "$2" "$rc" "$n" "$VERIF_DIR/bin/racepass.out" >bin/racepass.json
 }
-if [ "${1:-}" = check ] && [ "$tier" = thorough ] && { [ "$prop" = C09 ] || [ "$prop" = C05 ]; }; then
-  racepass
+if [ "${1:-}" = check ] && { [ "$prop" = C09 ] || [ "$prop" = C05 ]; }; then
+  mode=storage; [ "$prop" = C05 ] && mode=render
+  iters=15; [ "$tier" = thorough ] && iters=60
+  racepass $mode $iters
   export VERIF_RACEPASS="$VERIF_DIR/bin/racepass.json"
+fi
+if [ "${1:-}" = replay ] && { [ "$prop" = C09 ] || [ "$prop" = C05 ]; } && grep -q '"key": *"race|' "${2:-/dev/null}"; then
+  ( cd harness && go build -race -o ../bin/racepass ./cmd/racepass ) >bin/race-build.log 2>&1
 fi
 fail_build() {
   # The tree under test does not build: nothing can be decided. Not an alarm.
